@@ -95,12 +95,21 @@ Fixpoint search (fuel : nat) (c : code) (t : table) (todo seen : list nat) : opt
       end
   end.
 
-Definition sync_part (c : code) (t : table) (u : nat) (asy : bool) : exres :=
+Definition is_precall (i : instr) := match i with IPrecall => true | _ => false end.
+
+Definition sync_part (v : pyver) (c : code) (t : table) (u : nat) (asy : bool) : exres :=
   if is_wes (at_ c u) then ESome asy (u - 1) else
   let u := back_while (fun v => is_cache (at_ c v)) u in
   match at_ c u with
   | ICall 2 =>
       let u := u - 1 in
+      (* 3.11 has PRECALL (+ its cache) between the arguments and CALL; 3.12 does not *)
+      let pre := match v with
+                 | V312 => Some u
+                 | V311 => let u' := back_while (fun w => (3 <=? w) && is_cache (at_ c w)) u in
+                           if is_precall (at_ c u') then Some (u' - 1) else None
+                 end in
+      match pre with None => ENone | Some u =>
       if negb (is_loadconst (at_ c u)) then ENone else
       match backtrack c u with None => ENone | Some u1 =>
       match backtrack c u1 with None => ENone | Some u2 =>
@@ -110,10 +119,11 @@ Definition sync_part (c : code) (t : table) (u : nat) (asy : bool) : exres :=
         | None => EWarn
         end
       end end end
+      end
   | _ => ENone
   end.
 
-Definition exiting (c : code) (t : table) (lasti : nat) : exres :=
+Definition exiting (v : pyver) (c : code) (t : table) (lasti : nat) : exres :=
   (* 3.12: a running frame inside an awaited __aexit__ has lasti on SEND's inline cache *)
   let u := back_while (fun v => is_cache (at_ c v)
                                 && (is_send (at_ c (v - 1)) || is_cache (at_ c (v - 1)))) lasti in
@@ -132,11 +142,11 @@ Definition exiting (c : code) (t : table) (lasti : nat) : exres :=
       | None => EWarn
       | Some u =>
           match at_ c u with
-          | IGetAwaitable 2 => sync_part c t (u - 1) true
+          | IGetAwaitable 2 => sync_part v c t (u - 1) true
           | _ => ENone
           end
       end
-  | _ => if asy then ENone else sync_part c t u false
+  | _ => if asy then ENone else sync_part v c t u false
   end.
 
 (* ---------------------------------------------------------------- analyze_with_blocks *)
@@ -164,21 +174,23 @@ Fixpoint skip_ext (fuel : nat) (c : code) (rest : list nat) (skip : nat) : nat :
    None = the Python code raised (IndexError / KeyError) *)
 Definition winfo := list (nat * (nat * bool)).
 
-Fixpoint with_info_go (c : code) (t : table) (rest : list nat) (acc : winfo) : option winfo :=
+Fixpoint with_info_go (v : pyver) (c : code) (t : table) (rest : list nat) (acc : winfo) : option winfo :=
   match rest with
   | [] => Some acc
   | p :: tl =>
       match is_bw (at_ c p) with
-      | None => with_info_go c t tl acc
+      | None => with_info_go v c t tl acc
       | Some asy =>
           let skip := if asy then skip_ext (length rest) c rest 7 else 1 in
           let step1 :=
-            if asy then
-              match nth_error rest skip with
-              | None => None
-              | Some q => Some (S (if instr_eqb_kind (at_ c q) ICleanupThrow then S skip else skip))
-              end
-            else Some skip in
+            match v, asy with
+            | V312, true =>      (* 3.12: an optional CLEANUP_THROW, then END_SEND *)
+                match nth_error rest skip with
+                | None => None
+                | Some q => Some (S (if instr_eqb_kind (at_ c q) ICleanupThrow then S skip else skip))
+                end
+            | _, _ => Some skip
+            end in
           match step1 with
           | None => None
           | Some skip =>
@@ -191,7 +203,7 @@ Fixpoint with_info_go (c : code) (t : table) (rest : list nat) (acc : winfo) : o
               | Some q =>
                   match start_to_handler t q with
                   | None => None
-                  | Some h => with_info_go c t tl ((h, (p, asy)) :: acc)
+                  | Some h => with_info_go v c t tl ((h, (p, asy)) :: acc)
                   end
               end
             end
@@ -199,7 +211,7 @@ Fixpoint with_info_go (c : code) (t : table) (rest : list nat) (acc : winfo) : o
       end
   end.
 
-Definition with_info (c : code) (t : table) : option winfo := with_info_go c t (insns c) [].
+Definition with_info (v : pyver) (c : code) (t : table) : option winfo := with_info_go v c t (insns c) [].
 
 Fixpoint winfo_get (w : winfo) (h : nat) : option (nat * bool) :=
   match w with
@@ -284,14 +296,14 @@ Fixpoint objs_of (w : winfo) (st : list (val I)) (bl : list (nat * nat)) : optio
 
 (* _contexts_active_by_trickery (without the varname fallback, which is property C08);
    [running] = the frame is executing (stacktop = -1) *)
-Definition trickery (c : code) (t : table) (running : bool) (lasti : nat) (st : list (val I)) : tres :=
-  match with_info c t, blocks t lasti with
+Definition trickery (v : pyver) (c : code) (t : table) (running : bool) (lasti : nat) (st : list (val I)) : tres :=
+  match with_info v c t, blocks t lasti with
   | Some w, Some bl =>
       let vis := if running then keep_bottom (trim_depth t lasti) st else st in
       match objs_of w vis bl with
       | None => TFail
       | Some l =>
-          match exiting c t lasti with
+          match exiting v c t lasti with
           | ENone => TOk l
           | EWarn => TWarn
           | ESome _ h =>
@@ -330,10 +342,10 @@ Record refv := { r_site : nat; r_obj : option I; r_async : bool; r_exiting : boo
 Definition site_async (c : code) (s : nat) : bool :=
   match at_ c s with IBeforeWith a => a | _ => false end.
 
-Definition referents (c : code) (t : table) (lasti : nat) (st : list (val I)) : list refv :=
+Definition referents (v : pyver) (c : code) (t : table) (lasti : nat) (st : list (val I)) : list refv :=
   map (fun x : nat * I => {| r_site := fst x; r_obj := Some (snd x); r_async := site_async c (fst x);
                              r_exiting := false |}) (exits_on_stack st)
-  ++ match exiting c t lasti with
+  ++ match exiting v c t lasti with
      | ESome asy _ => [{| r_site := 0; r_obj := None; r_async := asy; r_exiting := true |}]
      | _ => []
      end.
@@ -346,22 +358,22 @@ Inductive caf_res :=
   | CafRef (l : list refv) (warned : bool)
   | CafRaise.
 
-Definition contexts_active (guarded enabled : bool) (c : code) (t : table) (running : bool)
+Definition contexts_active (v : pyver) (guarded enabled : bool) (c : code) (t : table) (running : bool)
            (lasti : nat) (st : list (val I)) : caf_res :=
   if enabled then
-    match trickery c t running lasti st with
+    match trickery v c t running lasti st with
     | TOk l => CafTrick l false
-    | TWarn => match with_info c t, blocks t lasti with
+    | TWarn => match with_info v c t, blocks t lasti with
                | Some w, Some bl =>
                    match objs_of w (if running then keep_bottom (trim_depth t lasti) st else st) bl with
                    | Some l => CafTrick l true
-                   | None => if guarded then CafRef (referents c t lasti st) true else CafRaise
+                   | None => if guarded then CafRef (referents v c t lasti st) true else CafRaise
                    end
-               | _, _ => if guarded then CafRef (referents c t lasti st) true else CafRaise
+               | _, _ => if guarded then CafRef (referents v c t lasti st) true else CafRaise
                end
-    | TFail => if guarded then CafRef (referents c t lasti st) true else CafRaise
+    | TFail => if guarded then CafRef (referents v c t lasti st) true else CafRaise
     end
-  else CafRef (referents c t lasti st) false.
+  else CafRef (referents v c t lasti st) false.
 End Referents.
 Arguments referents {I}. Arguments r_site {I}. Arguments r_obj {I}. Arguments r_async {I}.
 Arguments r_exiting {I}. Arguments Build_refv {I}. Arguments contexts_active {I}.
